@@ -21,6 +21,7 @@ type Env struct {
 	vtypes   map[string]types.Type
 	at       *ssa.BasicBlock // loop head for local-name resolution
 	assuming bool            // valid(...) registers regions when true
+	guard    *Term           // condition under which the current sub-expression is asserted
 	pkg      *types.Package
 	qn       int
 }
@@ -44,6 +45,13 @@ func (r *FnRun) envAt(st *State, at *ssa.BasicBlock) *Env {
 	e := r.env(st, r.Entry)
 	e.at = at
 	return e
+}
+
+func (e *Env) guardTerm() Term {
+	if e.guard != nil {
+		return *e.guard
+	}
+	return True
 }
 
 func (e *Env) sub(st *State) *Env {
@@ -111,11 +119,11 @@ func coerce(a, b Val) (Val, Val) {
 	case aok && bok:
 		return a, b
 	case aok:
-		if tb, ok := b.(Term); ok && tb.Sort.K == KBV {
+		if tb, ok := b.(Term); ok && isNum(tb.Sort) {
 			return BVConst(ua.V.(*big.Int), tb.Sort.W, tb.Sort.Signed), b
 		}
 	case bok:
-		if ta, ok := a.(Term); ok && ta.Sort.K == KBV {
+		if ta, ok := a.(Term); ok && isNum(ta.Sort) {
 			return a, BVConst(ub.V.(*big.Int), ta.Sort.W, ta.Sort.Signed)
 		}
 	}
@@ -242,7 +250,14 @@ func (e *Env) binary(n *EBinary) (Val, types.Type) {
 	case "||":
 		return Or(e.evalBool(n.X), e.evalBool(n.Y)), nil
 	case "==>":
-		return Implies(e.evalBool(n.X), e.evalBool(n.Y)), nil
+		a := e.evalBool(n.X)
+		sub := *e
+		g := a
+		if e.guard != nil {
+			g = And(*e.guard, a)
+		}
+		sub.guard = &g
+		return Implies(a, sub.evalBool(n.Y)), nil
 	case "<==>":
 		return Ident(e.evalBool(n.X), e.evalBool(n.Y)), nil
 	}
@@ -325,10 +340,10 @@ func (e *Env) binary(n *EBinary) (Val, types.Type) {
 	if !ok1 || !ok2 {
 		e.fail("operands of %s: %s, %s", n, describeVal(a), describeVal(b))
 	}
-	if x.Sort.K == KBV && y.Sort.K == KBV && x.Sort.W != y.Sort.W && !isShift(n.Op) {
+	if isNum(x.Sort) && isNum(y.Sort) && (x.Sort.W != y.Sort.W || x.Sort.K != y.Sort.K) && !isShift(n.Op) {
 		e.fail("width mismatch in %s: %d vs %d bits (convert explicitly)", n, x.Sort.W, y.Sort.W)
 	}
-	if x.Sort.K == KBV && y.Sort.K == KBV && x.Sort.Signed != y.Sort.Signed && !isShift(n.Op) {
+	if isNum(x.Sort) && isNum(y.Sort) && x.Sort.Signed != y.Sort.Signed && !isShift(n.Op) {
 		switch n.Op {
 		case "<", "<=", ">", ">=", "/", "%":
 			e.fail("signedness mismatch in %s (convert explicitly)", n)
@@ -380,6 +395,8 @@ func (e *Env) binary(n *EBinary) (Val, types.Type) {
 	return nil, nil
 }
 
+func isNum(s Sort) bool { return s.K == KBV || s.K == KInt }
+
 func isShift(op string) bool { return op == "<<" || op == ">>" }
 
 func boolTerm(b bool) Term {
@@ -412,10 +429,16 @@ func (e *Env) quant(n *EQuant) Val {
 	}
 	sub.assuming = false
 	body := sub.evalBool(n.Body)
-	if n.Forall {
-		return Forall(vars, body)
+	var ranges []Term
+	for _, v := range vars {
+		if v.Sort.K == KInt {
+			ranges = append(ranges, InTypeRange(v))
+		}
 	}
-	return Exists(vars, body)
+	if n.Forall {
+		return Forall(vars, Implies(And(ranges...), body))
+	}
+	return Exists(vars, And(append(ranges, body)...))
 }
 
 func (e *Env) sel(n *ESel) (Val, types.Type) {
@@ -547,9 +570,28 @@ func (e *Env) call(n *ECall) (Val, types.Type) {
 	case "valid":
 		p, nn := argT(0), argT(1)
 		if e.assuming {
-			e.st.regions = append(e.st.regions, Region{Base: p, Size: Term{nn.S, BV(64, false)}})
+			e.st.regions = append(e.st.regions, Region{Base: p, Size: Term{nn.S, BV(64, false)}, Cond: e.guardTerm()})
 		}
 		return And(Le(zeroLike(nn), nn), validTerm(p, nn)), nil
+	case "fresh":
+		// fresh(p, n): [p,p+n) was allocated during the call (not visible to the
+		// caller before, disjoint from every region known at entry).
+		p, nn := argT(0), argT(1)
+		if e.assuming {
+			var ds []Term
+			for _, rg := range e.st.regions {
+				ds = append(ds, Implies(rg.Cond, disjointTerm(p, nn, rg.Base, rg.Size)))
+			}
+			e.st.regions = append(e.st.regions, Region{Base: p, Size: Term{nn.S, BV(64, false)}, Fresh: true, Cond: e.guardTerm()})
+			return And(append(ds, Le(zeroLike(nn), nn), validTerm(p, nn))...), nil
+		}
+		var ds []Term
+		for _, rg := range e.st.regions {
+			if rg.Fresh {
+				ds = append(ds, And(rg.Cond, Le(rg.Base, p), Le(Add(p, Term{nn.S, BV(64, false)}), Add(rg.Base, rg.Size))))
+			}
+		}
+		return And(Le(zeroLike(nn), nn), Or(ds...)), nil
 	case "disjoint":
 		return disjointTerm(argT(0), argT(1), argT(2), argT(3)), nil
 	case "min":
@@ -572,6 +614,9 @@ func (e *Env) call(n *ECall) (Val, types.Type) {
 			return True, nil
 		}
 		return False, nil
+	case "mulovf":
+		a, b := coerce(arg(0), arg(1))
+		return MulOverflows(a.(Term), b.(Term)), nil
 	case "panicmsg":
 		return e.vars["panicmsg"], nil
 	}
@@ -579,11 +624,11 @@ func (e *Env) call(n *ECall) (Val, types.Type) {
 		v := arg(0)
 		switch x := v.(type) {
 		case *UntypedInt:
-			if s.K == KBV {
+			if isNum(s) {
 				return BVConst(x.V.(*big.Int), s.W, s.Signed), t
 			}
 		case Term:
-			if x.Sort.K == KBV && s.K == KBV {
+			if isNum(x.Sort) && isNum(s) {
 				return Resize(x, s.W, s.Signed), t
 			}
 			if x.Sort.K == KBool && s.K == KBool {
@@ -602,7 +647,7 @@ func (e *Env) call(n *ECall) (Val, types.Type) {
 			var t Term
 			switch x := v.(type) {
 			case *UntypedInt:
-				if sf.Params[i].K != KBV {
+				if !isNum(sf.Params[i]) {
 					e.fail("literal passed for non-BV parameter of %s", name)
 				}
 				t = BVConst(x.V.(*big.Int), sf.Params[i].W, sf.Params[i].Signed)
